@@ -64,6 +64,9 @@ pub fn c13_api(r: &mut Rng, n: usize) {
         // obstacles are placed around the links of the configuration half way, so that the direct
         // connection comes close to them; every second robot keeps large safety distances
         let mid: Joints = std::array::from_fn(|k| 0.5 * (q[k] + goal[k]));
+        // goals outside the box are planned on robots whose limits were NARROWED through update_range (history modes 8, 9
+        // of make_constraints): nudge one limit by ulps until the bits select such a history
+        if i % 6 == 5 { let mut guard = 0; while crate::gen::history_mode(&f, &t) < 8 && guard < 200 { f[4] = crate::gen::next_up(f[4]); guard += 1; } }
         let mut k = gen_kws(r, &mid, Some((f, t, 0.0)));
         if i % 2 == 0 {
             k.kws.body.safety.to_environment = *r.pick(&[0.1f32, 0.2, 0.3]);
@@ -132,6 +135,34 @@ pub fn c13_api(r: &mut Rng, n: usize) {
                 Some(Err(e)) => { l.s("err").s(if e == "Cancelled" { "cancelled" } else { "failed" }); }
             }
             l.emit();
+        }
+        if i % 5 == 1 {
+            // limits NARROWED through update_range from a wide range (or from an unconstrained object), free space, a goal
+            // that is inside the limits only modulo a turn: the line to it sweeps the forbidden arc, so either no path or
+            // every node inside the limits
+            let mut f2 = [0.0; 6]; let mut t2 = [0.0; 6];
+            for kk in 0..6 { f2[kk] = -r.range(2.6, 3.0); t2[kk] = r.range(2.6, 3.0); }
+            let kk = r.below(6);
+            f2[kk] = -r.range(0.8, 1.2); t2[kk] = r.range(0.8, 1.2);
+            crate::gen::FORCE_HISTORY.store(if r.chance(0.5) { 9 } else { 10 }, Ordering::Relaxed);
+            let start2 = rand_joints(r, 0.7);
+            let mut k2 = gen_kws(r, &start2, Some((f2, t2, 0.0)));
+            crate::gen::FORCE_HISTORY.store(0, Ordering::Relaxed);
+            k2.kws.body.collision_environment.clear();
+            let mut goal2 = rand_joints(r, 0.7);
+            goal2[kk] = t2[kk] - r.range(0.05, 0.3) - 2.0 * PI;
+            if !k2.kws.collides(&start2) && !k2.kws.collides(&goal2) {
+                let pl = RRTPlanner { step_size_joint_space: 0.1, max_try: 1500, debug: false };
+                let stop5 = AtomicBool::new(false);
+                let mut l = Line::new("C13", "api/narrowed-limits/goal-outside-box", "rrt");
+                l.j6(&start2).j6(&goal2).f(pl.step_size_joint_space).n(pl.max_try).b(false).j6(&f2).j6(&t2).arrow();
+                match catch(AssertUnwindSafe(|| pl.plan_rrt(&start2, &goal2, &k2.kws, &stop5))) {
+                    None => { l.s("panic"); }
+                    Some(Ok(path)) => { l.s("ok").n(path.len()); for p in &path { l.j6(p).b(k2.kws.collides(p)).b(k2.kws.constraints().as_ref().unwrap().compliant(p)); } }
+                    Some(Err(e)) => { l.s("err").s(if e == "Cancelled" { "cancelled" } else { "failed" }); }
+                }
+                l.emit();
+            }
         }
         if i % 7 == 0 {
             // cancellation raised from another thread during planning of an infeasible problem (goal buried in an obstacle is
